@@ -114,6 +114,11 @@ def mkEnv (e : Exact) : Env :=
 
 def kappaLimit : Float := 1.0e12 * 1.000001
 
+/-- envelope constant of the p-th central / standardized moment: `2p²` for the orders of property C04
+    (N ≤ 10, checked up to 12); beyond that - orders the property does not quantify over, exercised only to
+    reach code paths - the accumulated binomial corrections grow faster and `p³/2` is allowed -/
+def highOrder (p : Nat) : Float := if p ≤ 12 then 2 * Float.ofNat (p * p) else Float.ofNat (p * p * p) / 2
+
 /-- statistics of one sample (Mean .. Kurtosis, define_moments!) -/
 def momTarget (e : Exact) (env : Env) (name : String) : Option Target := do
   let n := e.n
@@ -170,14 +175,14 @@ def momTarget (e : Exact) (env : Env) (name : String) : Option Target := do
       let p ← parseP "cm"
       if p == 0 then pure (rationalTarget 1 0) else if p == 1 then pure (rationalTarget 0 0) else
       if zeroSpread then pure (rationalTarget 0 (Float.pow (2 * zb) (Float.ofNat p))) else if big then pure skipTarget else
-      pure (rationalTarget (e.m p) (2 * Float.ofNat (p * p) * env.nku * fl (e.nu p)))
+      pure (rationalTarget (e.m p) (highOrder p * env.nku * fl (e.nu p)))
     else if name.startsWith "sm" then
       let p ← parseP "sm"
       if p == 0 then pure (rationalTarget nr 0) else if p == 1 then pure (rationalTarget 0 0) else
       if p == 2 then pure (rationalTarget 1 0) else
       if zeroSpread || big then pure skipTarget else
       let sp := Float.pow env.sigma (Float.ofNat p)
-      pure (irrationalTarget (fl (e.m p) / sp) (2 * Float.ofNat (p * p) * env.nku * (fl (e.nu p) / sp)))
+      pure (irrationalTarget (fl (e.m p) / sp) (highOrder p * env.nku * (fl (e.nu p) / sp)))
     else none
 
 /-- `name=word` pairs -/
@@ -451,7 +456,8 @@ def oracleHCW (LEN : Nat) (sew edgesw : List String) : Option Verdict := do
   let edr ← edges.mapM toRat?
   if edges.length != LEN + 1 then pure (.fail "hcw: wrong number of edges") else
   let mx := if ratAbs sr < ratAbs er then ratAbs er else ratAbs sr
-  let tol := 8 * mx * mkRat 1 (2 ^ 53)
+  -- (in the subnormal range a "few ulps" is a few units of 2^-1074, whatever the magnitude)
+  let tol := max (8 * mx * mkRat 1 (2 ^ 53)) (mkRat 4 (2 ^ 1074))
   let first := edr.head? == some sr
   let mono := (List.zip edr (edr.drop 1)).all fun (a, b) => a ≤ b
   let close := (List.zip (List.range (LEN + 1)) edr).all fun (i, v) =>
